@@ -47,6 +47,7 @@ func genL2WCase(r *sim.Rng, tier string, tail bool) *WCase {
 	}
 	n := pl.Len()
 	c := &WCase{Format: "lzma2", L2: &cfg, Payload: pl, Ops: genHistory(r, n, true, []int{65536, 65536 * 2, 2 << 20}, tail)}
+	c.Sink.ByteWriter = r.Chance(1, 6)
 	c.RDict = sim.Pick(r, []int{4096, 4096, 8192, 1 << 16})
 	return c
 }
